@@ -110,6 +110,7 @@ type walker struct {
 	maxMis   int
 	badEdge  map[string]bool // state|stim groups that produced a mismatch (not retried)
 	diverted map[string]int  // state|stim|to -> times a planned nondeterministic hop went elsewhere
+	hangExit func()          // saves the walk state and ends this process so that a fresh one continues (set in child mode)
 }
 
 func (w *walker) reset(init string) {
@@ -124,7 +125,20 @@ func (w *walker) reset(init string) {
 func (w *walker) step(stim string) bool {
 	edges := w.lts.Group[w.cur][stim]
 	s := Stim(edges[0].Ev)
+	OnHang = func(Ev) { // the call does not return: record it like a mismatching observation and go on in a fresh process
+		w.observe(stim, s, edges, HangObs(), nil)
+		if w.hangExit != nil {
+			w.hangExit()
+		}
+		fmt.Fprintf(os.Stderr, "VERIF-HANG %s\n", Canon(s))
+		os.Exit(2)
+	}
 	res, st, _ := SafeApply(w.sut, s)
+	return w.observe(stim, s, edges, res, st)
+}
+
+// observe matches the observation of a step against the edges of its stimulus group; false = mismatch (reset).
+func (w *walker) observe(stim string, s Ev, edges []*Edge, res, st any) bool {
 	w.rep.Steps++
 	obs := Canon(Ev{"res": res, "st": st})
 	w.path = append(w.path, Ev{"stim": s, "res": res, "st": st})
@@ -256,8 +270,10 @@ type WalkState struct {
 	TourDone     bool            `json:"tour_done"`
 	Tour2Started bool            `json:"tour2_started"`
 	Done         bool            `json:"done"`
+	Hangs        int             `json:"hangs"` // steps that did not return (each ended its process)
 
 	canRestart bool
+	OnHangExit func() `json:"-"` // child mode: write the state file and exit with the "continue me" code
 }
 
 // AllowRestart marks that a wrapper process will continue the walk in a fresh process.
@@ -312,6 +328,16 @@ func WalkResume(name string, sut SUT, lts *LTS, seed int64, walks, depth, maxMis
 	}
 	w := &walker{lts: lts, sut: sut, name: name, rep: rep, tries: st.Tries, rng: rand.New(rand.NewSource(seed + int64(st.Restarts)*7919)),
 		maxMis: maxMismatch, badEdge: st.Bad, diverted: map[string]int{}}
+	if st.canRestart && st.OnHangExit != nil {
+		w.hangExit = func() {
+			save()
+			st.Hangs++
+			if st.Hangs >= 3 { // the verdict is clear (and every further hang costs StepTimeout): end the walk here
+				st.Done = true
+			}
+			st.OnHangExit()
+		}
+	}
 	inits := make([]string, 0, len(lts.Inits))
 	for k := range lts.Inits {
 		inits = append(inits, k)
